@@ -10,7 +10,7 @@ import ast
 from . import common
 from . import c15_layout as L
 
-PER_FILE = 40
+PER_FILE = 8
 CALL = {   # how to call a lambda with this parameter list (to obtain the lambdas nested in its body)
     'none': ((), {}), 'x': ((0,), {}), 'y': ((0,), {}), 'xy': ((0, 0), {}), 'xd': ((), {}), 'va': ((), {}),
     'kw': ((), {}), 'po': ((0,), {}), 'ko': ((), {'x': 0}), 'xz': ((0,), {}),
@@ -185,9 +185,9 @@ def reductions(key, i):
     n = len(par)
     if cx != 'mod':
         yield ('mod', par, brk, span, sig), i
-    for k in range(n - 1, -1, -1):                # drop another lambda that has no lambda inside it
-        if (k + 1) not in par and n > 1 and k + 1 != i:
-            newpar = tuple(p - 1 if p > k + 1 else p for q, p in enumerate(par) if q != k)
+    for k in range(n - 1, -1, -1):                # drop another lambda; lambdas inside it move to its parent
+        if n > 1 and k + 1 != i:
+            newpar = tuple((par[k] if p == k + 1 else p - 1 if p > k + 1 else p) for q, p in enumerate(par) if q != k)
 
             def cut(t):
                 return tuple(x for q, x in enumerate(t) if q != k)
